@@ -63,6 +63,24 @@ var specs = map[string]*spec{
 	},
 }
 
+// runners: the special-purpose translations; each lives in its own file and registers itself in an
+// init function (`register("name", "../lean/Generated/X.lean", runX)`), so adding one touches no shared code.
+type runner struct {
+	out string
+	run func(repo, out string)
+}
+
+var runners = map[string]runner{}
+
+func register(name, out string, run func(repo, out string)) { runners[name] = runner{out, run} }
+
+func init() {
+	register("clonebase", "../lean/Generated/GoCloneBase.lean", runCloneBase)
+	register("gconfigbuilder", "../lean/Generated/GoGConfigBuilder.lean", runGConfigBuilder)
+	register("gconfigextract", "../lean/Generated/GoGConfigExtract.lean", runGConfigExtract)
+	register("genumvalues", "../lean/Generated/GoGenumValues.lean", runGenumValues)
+}
+
 var fset = token.NewFileSet()
 
 func fail(format string, a ...any) {
@@ -798,32 +816,11 @@ func main() {
 	if *repo == "" {
 		*repo = repoFromWorkspace("go.work")
 	}
-	if *which == "clonebase" {
+	if r, ok := runners[*which]; ok {
 		if *out == "" {
-			*out = "../lean/Generated/GoCloneBase.lean"
+			*out = r.out
 		}
-		runCloneBase(*repo, *out)
-		return
-	}
-	if *which == "gconfigbuilder" {
-		if *out == "" {
-			*out = "../lean/Generated/GoGConfigBuilder.lean"
-		}
-		runGConfigBuilder(*repo, *out)
-		return
-	}
-	if *which == "gconfigextract" {
-		if *out == "" {
-			*out = "../lean/Generated/GoGConfigExtract.lean"
-		}
-		runGConfigExtract(*repo, *out)
-		return
-	}
-	if *which == "genumvalues" {
-		if *out == "" {
-			*out = "../lean/Generated/GoGenumValues.lean"
-		}
-		runGenumValues(*repo, *out)
+		r.run(*repo, *out)
 		return
 	}
 	sp := specs[*which]
